@@ -172,6 +172,7 @@ impl Proto for V4 {
                 p.pkid = *pkid;
                 client.try_ack(&p).is_ok()
             }
+            UReq::Disconnect => client.try_disconnect().is_ok(),
         }
     }
 
